@@ -375,6 +375,66 @@ func wrapClosure(p *Prog) (*ssa.Function, error) {
 	return lits[0], nil
 }
 
+// wrapReturnsClosure: Wrap hands out the request closure on every path and
+// decides nothing itself — a handler wrapped while the middleware was
+// passthrough must follow later reconfigurations like any other (C06, C07,
+// C11 all speak about the handler Wrap returned, whenever it was wrapped).
+func wrapReturnsClosure(ctx *Ctx, r *Result, rule string) {
+	p := ctx.P
+	r.rule(rule, "Wrap returns the request closure on every path and reads no Middleware state itself (the state is consulted per request, not at wrap time)", 1)
+	wrap := p.Func(pkgRoot, "(*Middleware).Wrap")
+	cl, err := wrapClosure(p)
+	if wrap == nil || err != nil {
+		r.undecided(rule, "Wrap", fmt.Sprint(err))
+		return
+	}
+	bad := ""
+	nRet := 0
+	var isClosure func(v ssa.Value, depth int) bool
+	isClosure = func(v ssa.Value, depth int) bool {
+		if depth > 6 {
+			return false
+		}
+		switch x := v.(type) {
+		case *ssa.MakeClosure:
+			return x.Fn == ssa.Value(cl)
+		case *ssa.MakeInterface:
+			return isClosure(x.X, depth+1)
+		case *ssa.ChangeType:
+			return isClosure(x.X, depth+1)
+		case *ssa.Convert:
+			return isClosure(x.X, depth+1)
+		case *ssa.Phi:
+			for _, e := range x.Edges {
+				if !isClosure(e, depth+1) {
+					return false
+				}
+			}
+			return len(x.Edges) > 0
+		}
+		return false
+	}
+	for _, b := range wrap.Blocks {
+		for _, ins := range b.Instrs {
+			switch x := ins.(type) {
+			case *ssa.Return:
+				nRet++
+				if len(x.Results) != 1 || !isClosure(x.Results[0], 0) {
+					bad = "Wrap can return something other than the request closure (@" + p.Pos(x.Pos()) + "): that handler would not follow later Reconfigure/SetDebug calls"
+				}
+			case *ssa.FieldAddr:
+				if isNamedPtr(x.X.Type(), pkgRoot, "Middleware") {
+					bad = "Wrap itself reads the Middleware's state (@" + p.Pos(x.Pos()) + "): a decision taken at wrap time is stale for every later request"
+				}
+			}
+		}
+	}
+	if nRet == 0 {
+		bad = "Wrap has no return"
+	}
+	r.check(bad == "", rule, "(*Middleware).Wrap", p.Pos(wrap.Pos()), bad, nRet)
+}
+
 func buildRequestTable(p *Prog) *RequestTable {
 	rt := &RequestTable{}
 	cl, err := wrapClosure(p)
